@@ -74,6 +74,19 @@ fn auth_case_stacked(t: &[&str], outer: Option<&str>) -> String {
     let mk = |i: usize, spec: &str| -> Request<Bytes> {
         let mut r = Request::new(Bytes::new()).with_header("tag", i.to_string());
         if allow_mode {
+            // a trailing 'o' / 'i' / 'c': the request also carries the extensions the library itself attaches elsewhere
+            // (Direction::Outbound, Direction::Inbound, a ConnectionOrigin): none of them is the sender's identity
+            let (spec, extra) = match spec.chars().last() {
+                Some(c @ ('o' | 'i' | 'c')) if spec.len() > 1 || spec == "n" => (&spec[..spec.len() - 1], Some(c)),
+                _ => (spec, None),
+            };
+            let spec = if spec.is_empty() { "n" } else { spec };
+            match extra {
+                Some('o') => r = r.with_extension(anemo::Direction::Outbound),
+                Some('i') => r = r.with_extension(anemo::Direction::Inbound),
+                Some('c') => r = r.with_extension(anemo::ConnectionOrigin::Outbound),
+                _ => {}
+            }
             if let Some(id) = spec.strip_prefix('s') {
                 r = r.with_extension(peer(id.parse().unwrap()));
             }
